@@ -3,7 +3,7 @@ every balanced assignment of currents is accepted."""
 import z3
 
 from pyvc import sym, instrument, vc as vcm
-from pyvc.arr import SymArray
+from pyvc.arr import SymArray, check_same
 from pyvc.harness import Unit
 from pyvc.sym import SB, SC, SI, SR, check, assume, explore, FreshInt
 from checks import update_common as uc, init_common as ic
@@ -113,7 +113,7 @@ def run_conserve(mutate=None):
             tag = "time-dependent A" if dyn else "static A"
             resid = (ops.divergence @ (js + jn)) - (ops.mu_boundary_laplacian @ s.mu_boundary)
             check(f"C01.conserve[{tag}]", z3.BoolVal(isinstance(resid, LinVec) and resid.is_zero()), note=str(getattr(resid, "t", resid)))
-            check(f"C01.conserve.supercurrent_is_operator_supercurrent[{tag}]", z3.BoolVal(js is Js))
+            check_same(f"C01.conserve.supercurrent_is_operator_supercurrent[{tag}]", [(js, Js)])
             want_rhs = (ops.divergence @ (Js - dA)) - (ops.mu_boundary_laplacian @ s.mu_boundary)
             check(f"C01.conserve.poisson_rhs[{tag}]", z3.BoolVal(len(calls) == 1 and (calls[0] - want_rhs).is_zero()))
             check(f"C01.conserve.normal_current_is_minus_grad_mu_minus_dA[{tag}]", z3.BoolVal((jn + (ops.mu_gradient @ mu) + dA).is_zero() if dyn else (jn + (ops.mu_gradient @ mu)).is_zero()))
